@@ -822,7 +822,7 @@ fn tree_case(run: &mut Run, repo: &git2::Repository, id: &str, r: &mut Rng) {
     }
 
     // ---- file by file
-    let mut budget = Budget(24_000);
+    let mut budget = Budget(3_500);
     for f in &files {
         let fh = FileHeader::from(*f);
         let ftext = match call(|| f.to_unified_string()) {
@@ -855,7 +855,11 @@ fn tree_case(run: &mut Run, repo: &git2::Repository, id: &str, r: &mut Rng) {
             Err(p) => failures.push((CLASS_PANIC.into(), format!("Diff::parse panicked: {p}"))),
         }
         // model: file header + content -> text
-        if file_in_scope_utf8 && !scope.non_utf8 && budget.0 > ftext.len() * 2 {
+        if std::str::from_utf8(&path_bytes(f.path())).is_ok() {
+            let o = call(|| fh.to_unified_string().map(|s| s.into_bytes()));
+            corr(run, id, "enc-file-header", format!("KEncFHeader {}", cq_fheader(&fh)), &o, "OBytes", |b| coq_bytes(b));
+        }
+        if file_in_scope_utf8 && !scope.non_utf8 && ftext.len() < 700 && budget.0 > ftext.len() * 2 {
             budget.0 -= ftext.len() * 2;
             let o: Out<Vec<u8>> = Out::Ok(ftext.clone().into_bytes());
             corr(run, id, "enc-file", format!("KEncFile {} {}", cq_fheader(&fh), cq_content(content_of(f))), &o, "OBytes", |b| coq_bytes(b));
@@ -963,7 +967,7 @@ fn tree_case(run: &mut Run, repo: &git2::Repository, id: &str, r: &mut Rng) {
             }
         }
         // content codec (Rust decoder over all hunks of the file)
-        if file_in_scope_utf8 {
+        if file_in_scope_utf8 && hunks_of(content_of(f)).len() != 1 {
             if let Out::Ok(ct) = call(|| content_of(f).to_unified_string()) {
                 if budget.0 > ct.len() * 2 {
                     budget.0 -= ct.len() * 2;
@@ -1105,6 +1109,13 @@ fn rand_mods(r: &mut Rng, hh: &HunkHeader, consistent: bool) -> Vec<Modification
         let mut l = gen_line(r, false);
         if l.contains(&b'\n') {
             l.retain(|c| *c != b'\n');
+        }
+        if l.len() > 160 {
+            let mut k = 160;
+            while std::str::from_utf8(&l[..k]).is_err() {
+                k -= 1;
+            }
+            l.truncate(k);
         }
         if !r.chance(1, 20) {
             l.push(b'\n');
@@ -1380,7 +1391,7 @@ fn main() {
     let seed = run.args.seed;
     let tmp = tempfile::tempdir().unwrap();
     let repo = git2::Repository::init_bare(tmp.path()).unwrap();
-    let n0 = run.args.count(260, 2500);
+    let n0 = run.args.count(260, 1600);
     for i in 0..n0 {
         let id = format!("0:{}", i);
         if !run.args.wants(&id) {
@@ -1389,7 +1400,7 @@ fn main() {
         let mut r = Rng::for_case(seed, 0, i);
         tree_case(&mut run, &repo, &id, &mut r);
     }
-    let n1 = run.args.count(1300, 12000);
+    let n1 = run.args.count(1300, 8000);
     for i in 0..n1 {
         let id = format!("1:{}", i);
         if !run.args.wants(&id) {
